@@ -19,7 +19,7 @@ ASSUMPTIONS = ['blacklist intervals are half-open [start,end) with start<end, as
                'fetch windows are only required to be contained and to extend by at most the fragment size (maximality is reported, not demanded)']
 MIN_NONTRIVIAL = {'quick': 3000, 'thorough': 100000}
 REQUIRED_MONITORS = ['yield:blacklisted_binning', 'yield:blacklisted_binning_window', 'yield:blacklisted_binning_contigs',
-                     'yield:fill_range', 'yield:bp_chunked']
+                     'yield:fill_range', 'yield:bp_chunked', 'bed:gz', 'bed:shuffled', 'region:near_or_beyond_2^31']
 EXHAUSTIVE = {'quick': False, 'thorough': True}
 SHARD_TIMEOUT = {'quick': 600, 'thorough': 7200}
 
@@ -176,7 +176,9 @@ def run_case(case):
     elif case['kind'] == 'random':
         r = rng(case['seed'], 'C17', 'random', case['i'])
         for _ in range(case['n']):
-            S = r.choice([0, 0, r.randint(0, 5000)])
+            S = r.choice([0, 0, r.randint(0, 5000), r.randint(0, 5000), 2 ** 31 - r.randint(1, 3000), 3 * 10 ** 9 + r.randint(0, 1000)])
+            if S >= 2 ** 31 - 3000:
+                acc.count('region:near_or_beyond_2^31')
             L = r.choice([r.randint(1, 300), r.randint(1, 20000), r.randint(1, 1000000)])
             E = S + L
             B = r.choice([r.randint(1, 50), r.randint(1, 5000), r.randint(1, 2 * L), 250, 1000, 100000])
@@ -211,7 +213,7 @@ def run_case(case):
                     lines.append(f'{name}\t{a}\t{a + w}\n')
             # the order of the lines and the compression of the file are not under the tool's control: grouped by contig, shuffled
             # (concatenated blacklists), plain or gzipped
-            bed_form = r.choice(['grouped', 'shuffled', 'shuffled', 'gz'])
+            bed_form = ['grouped', 'shuffled', 'gz', 'shuffled'][case['i'] % 4]
             if bed_form != 'grouped':
                 r.shuffle(lines)
             acc.count('bed:' + bed_form)
